@@ -35,7 +35,9 @@ def run(tier):
     hs += [h for h in histories(["print", "dump11"], 3, check, faulty=["print", "dump11"]) if any(x.endswith("!") for x in h)]
     hs = [list(h) for h in sorted(set(tuple(h) for h in hs))]
     progs = inputs.programs(check, tier)
-    progs = sorted(progs, key=lambda p: -len(p["src"]))[:nprog // 2] + rng.sample(progs, nprog // 2)
+    # (all histories x a program: the largest ones that are not the 100 KiB long-token programs, which the wide history below covers)
+    mid = [p for p in progs if len(p["src"]) <= 20000]
+    progs = sorted(mid, key=lambda p: -len(p["src"]))[:nprog // 2] + rng.sample(mid, nprog // 2)
     progs += rng.sample(inputs.signature_programs(), 60 if tier == "quick" else 600)
     # files with several namespace sections, imports and references whose short names collide (rendered from NsResolver.tla)
     progs += [{"src": s, "ver": "7.4"} for s in c14.sample_sources(check, tier, nprog // 2)]
@@ -61,7 +63,7 @@ def run(tier):
                             {"task": t, "observed": r})
     # breadth: one history that runs every observer twice, on every program of the shared pool (long lists, constructs nested in
     # themselves, every short access chain ...): an observer that damages the tree only for a particular shape shows here
-    wide = [{"op": "history", "src": p["src"], "ver": p["ver"], "hist": ["print", "dump11", "traverse", "resolve", "print", "dump11", "traverse", "resolve"]}
+    wide = [{"op": "history", "src": p["src"], "ver": p["ver"], "hist": ["print", "dump11", "traverse", "resolve", "print", "dump11", "traverse", "resolve"], "limit_ms": 5000 + len(p["src"]) // 10}
             for p in inputs.programs(check, tier)]
     for t, r in zip(wide, wp.run(wide)):
         if r.get("skip"):
